@@ -40,6 +40,8 @@ var c01Lines = []string{
 	strings.Repeat("x", 1100) + "ab", strings.Repeat("pad=1 ", 180) + "x=7 y=b",
 	// number texts that another number syntax reads differently (octal-looking, base prefix): decimal 10, and not a number
 	`x=010 y=a`, `x=0x10 y=b`,
+	// labels whose JSON value is an array (with elements that are needles of the alphabet) or an empty array
+	`{"tags":["a","b"],"y":"a"}`, `{"tags":[],"y":"b"}`, `{"tags":["a"]}`,
 }
 
 // c01Records: every line once, unique timestamps, stream labels cycling through app in {x,y} x env in {p,absent}.
@@ -266,14 +268,19 @@ func c01Check(r *vkit.Run, in c01Input, reuse bool) (kept, dropped int) {
 	}
 	if reuse {
 		// non-initial state: the same Engine evaluates the query a second time
-		mq := mockq.New(data)
-		mq.Caps = caps(allStringOps, nil)
-		eng := newEngine(mq)
-		_ = evalLogOn(eng, in.Query, 0, 1<<40, -1)
-		res := evalLogOn(eng, in.Query, 0, 1<<40, -1)
-		r.Eval()
-		if d := diffMultiset(entryMultiset(res.Entries), want); d != "" || res.Err != "" || res.Panic != "" {
-			r.Fail("C01/engine-reuse", in, nil, res.brief(), want, "second evaluation on the same Engine differs: "+d+res.Err+res.Panic, "")
+		// (under a storage that evaluates every selector operator, and under one that evaluates = and != only, so that the
+		// selector is split between storage and engine at every evaluation)
+		for _, c := range []logqlengine.QuerierCapabilities{caps(allStringOps, nil), caps([]logql.BinOp{logql.OpEq, logql.OpNotEq}, nil), caps([]logql.BinOp{logql.OpRe, logql.OpNotRe}, []logql.BinOp{logql.OpEq})} {
+			mq := mockq.New(data)
+			mq.Caps = c
+			eng := newEngine(mq)
+			_ = evalLogOn(eng, in.Query, 0, 1<<40, -1)
+			res := evalLogOn(eng, in.Query, 0, 1<<40, -1)
+			r.Eval()
+			if d := diffMultiset(entryMultiset(res.Entries), want); d != "" || res.Err != "" || res.Panic != "" {
+				r.Fail("C01/engine-reuse", in, nil, map[string]any{"caps": capName(c), "entries": res.brief()}, want, "second evaluation on the same Engine (storage capabilities "+capName(c)+") differs: "+d+res.Err+res.Panic, "")
+				break
+			}
 		}
 	}
 	return kept, dropped
@@ -303,7 +310,7 @@ func c01Run(r *vkit.Run) {
 	probe := [][]int{{}, {1}, {13}, {36}, {40, 44}}
 	for si := range c01Sels {
 		for _, st := range probe {
-			visit(c01Input{Data: "all", Sel: si, Stages: st}, false)
+			visit(c01Input{Data: "all", Sel: si, Stages: st}, len(st) == 0 && len(c01Sels[si]) >= 2)
 		}
 	}
 	r.GlobalState("selectors")
